@@ -358,6 +358,11 @@ def c20_part(outdir):
     except (AnchorLost, weave.SpecError, Undecided) as e:
         return {'status': 'undecided', 'why': str(e)[:800]}
     fs = [f for f in classified_failures(text, linemap, unit, res) if 'C20' in f['props']]
+    bodies = {it.name: it.body for it in ex['items'] if it.kind == 'fn'}
+    unc = [u.split('::')[-1] for u in info.get('uncontracted', []) if not u.startswith('SyntaxKind::') and not u.startswith('TokenSet::')]
+    nc = [f for f in fs if f['fn'] in info['defaulted'] or (f['fn'] in bodies and any(re.search(r'\b%s\s*\(' % re.escape(u), bodies[f['fn']]) for u in unc))]
+    if fs and len(nc) == len(fs):
+        return {'status': 'undecided', 'why': 'obligations failed only in functions that call a helper without a contract (needs contract, not a bug): %s' % sorted(set(f['fn'] for f in fs))}
     other = [f['id'][:200] for f in res['failures'] if f not in fs]
     return {'status': 'failed' if fs else ('verified' if not res['failures'] else 'verified-for-C20 (other properties\' obligations fail)'),
             'verified': res['verified'], 'errors': res['errors'], 'cmd': res['cmd'], 'smt_ms': res['smt_ms'],
@@ -382,18 +387,18 @@ def native_bounded(prop, tier):
             found.append(('parser :: bounded-check :: deep nesting :: %s' % w.get('input_recipe'),
                           'crates/syntax/src/parser.rs (Parser::nth progress guard / recursion depth)', w))
     if prop == 'C01':
-        w, ran = deep_probe(tier, kinds=('lossy', 'error-range'))
+        w, ran = deep_probe(tier, kinds=('lossy',))
         bounded.append({'what': 'deep-nesting inputs (unclosed / balanced / mixed / followed by another item) on the real crate: tree text == input',
                         'bound': 'constructs=%d depths per construct: see tools/prop_parser.py deep_probe (%s tier)' % (len(witness.DEEP), tier),
                         'inputs_run': ran, 'failed': bool(w)})
         if w:
             found.append(('parser :: bounded-check :: lossless :: deep nesting :: %s' % w.get('input_recipe'), 'crates/syntax/src/parser.rs', w))
         k, budget = (2, 60) if tier == 'quick' else (3, 420)
-        w, n = witness.enumerate_inputs(k, budget, seed())
+        w, n = witness.enumerate_inputs(k, budget, seed(), kinds=['lossy'])
         bounded.append({'what': 'end-to-end losslessness of parse_module (lexer + parser + tree builder + rowan) on enumerated token-class sequences in 9 contexts',
                         'bound': 'all sequences of <= %d tokens over a 52-token alphabet (time budget %ds)' % (k, budget),
                         'inputs_run': n, 'failed': bool(w)})
-        if w and w['kind'] in ('lossy', 'error-range'):
+        if w and w['kind'] == 'lossy':
             found.append(('parser :: bounded-check :: lossless :: enumerated input', 'crates/syntax/src/parser.rs', w))
     return bounded, found
 
@@ -446,6 +451,12 @@ def main(prop, tier):
 
     # functions without an explicit contract that are involved in a failure: "needs contract", not "bug"
     needs_contract = [f for f in mine if f['fn'] in info['defaulted'] or any(d in f['site'] for d in info['defaulted'])]
+    # ... and a failure in a function whose body calls a helper that has no contract at all (a new `&self` helper, say)
+    bodies = {it.name: it.body for it in ex['items'] if it.kind == 'fn'}
+    unc = [u.split('::')[-1] for u in info.get('uncontracted', []) if not u.startswith('SyntaxKind::') and not u.startswith('TokenSet::')]
+    for f in mine:
+        if f not in needs_contract and f['fn'] in bodies and any(re.search(r'\b%s\s*\(' % re.escape(u), bodies[f['fn']]) for u in unc):
+            needs_contract.append(f)
 
     guard_problems = []
     if extra_assumptions:
@@ -514,7 +525,7 @@ def main(prop, tier):
 
     # ---- violations from the verifier
     real = [f for f in mine if f not in needs_contract]
-    want = ('lossy', 'error-range') if prop == 'C01' else ('panic', 'hang', 'abort')
+    want = ('lossy',) if prop == 'C01' else ('panic', 'hang', 'abort')
     w = None
     if real or needs_contract:
         try:
@@ -618,7 +629,7 @@ def undecided_with_probes(prop, tier, t0, msg):
             if not w:
                 w = witness.search(3, 60, seed=seed(), kinds=('panic', 'hang', 'abort'))
         else:
-            w = witness.search(3, 90, seed=seed(), kinds=('lossy', 'error-range'))
+            w = witness.search(3, 90, seed=seed(), kinds=('lossy',))
     except Undecided:
         w = None
     if not w:
